@@ -54,6 +54,59 @@ def lookup_table(facts, fn):
     return tab, dup
 
 
+def candidate_keys(facts):
+    """Short lower-case string literals of the code in calendars::named (functions and constants of the module itself): what a calendar key could be."""
+    out = set()
+    for r in facts.all_fns():
+        if re.match(r"^calendars::named::[A-Za-z_]\w*$", r["fn"]):
+            for e in hir.walk(r["body"]):
+                if e.get("k") == "lit" and e.get("lk") == "str" and re.fullmatch(r"[a-z]{2,5}", str(e.get("v", ""))):
+                    out.add(e["v"])
+                for a in (e.get("arms") or []) if e.get("k") == "match" else []:
+                    if a["pat"].get("k") == "lit" and a["pat"].get("lk") == "str":
+                        out.add(a["pat"]["v"])
+    return out
+
+
+def resolve_by_evaluation(facts, names):
+    """For each name, evaluate the two getters on that literal name (data constants kept symbolic): name -> constant path for holidays and week mask, plus
+    the per-name plumbing verdicts. The look-up may be a HashMap written out as pairs, a `match` on the name, an array/const table searched with find, ..."""
+    import cel
+    from cel import Sym, Poly, Coll, Unsupported, vkey
+    from rules import gather
+    datac = lambda d: Sym("table", d) if re.match(r"^calendars::named::\w+::(HOLIDAYS|WEEKMASK)$", d) else None
+    hk = {"@elem": gather.container_elem, "@const": datac}
+    hol, wkm, verdicts = {}, {}, {}
+    for n in sorted(names) + ["\0unknown"]:
+        for kind, fn in (("holidays", "calendars::named::get_holidays_by_name"), ("mask", "calendars::named::get_weekmask_by_name")):
+            key = (n, kind)
+            try:
+                got = cel.strip_early(cel.Ev(facts, hooks=hk).apply_fn(fn, [Sym("lit", n)], 0))
+            except Unsupported as e:
+                verdicts[key] = ("unsupported", str(e))
+                continue
+            if isinstance(got, cel.Alt):
+                verdicts[key] = ("undecided", cel.vfmt(got)[:300])
+                continue
+            if isinstance(got, Sym) and got.tag[:2] == ("ctor", "Err"):
+                verdicts[key] = ("err", None)
+                continue
+            ok, tabk = False, None
+            if isinstance(got, Sym) and got.tag[:2] == ("ctor", "Ok") and len(got.tag) == 3:
+                x = got.tag[2]
+                if kind == "mask" and isinstance(x, Sym) and x.tag[:1] == ("table",):
+                    ok, tabk = True, x.tag[1]
+                if kind == "holidays" and isinstance(x, Coll) and isinstance(vkey(x.seq.src), tuple) and vkey(x.seq.src)[:2] == ("sym", "table"):
+                    tabk = vkey(x.seq.src)[2]
+                    el = x.seq.fn(Poly.atom("i0"))
+                    lit = Sym("at", vkey(x.seq.src), Poly.atom("i0").key())
+                    ok = vkey(el) == vkey(Sym("m", "unwrap", vkey(Sym("call", "chrono::NaiveDateTime::parse_from_str", (vkey(lit), vkey(Sym("lit", FMT))))), ()))
+            verdicts[key] = ("ok", tabk) if ok else ("bad", cel.vfmt(got)[:300])
+            if ok:
+                (hol if kind == "holidays" else wkm)[n] = tabk
+    return hol, wkm, verdicts
+
+
 def documented_names(repo):
     src = open(os.path.join(repo, "python/rateslib/calendars/rs.py")).read()
     for n in ast.parse(src).body:
@@ -82,8 +135,12 @@ def fixing_pairs(repo):
 def run(ck, facts, tier):
     repo = facts.repo
     named_dir = os.path.join(repo, "rust/calendars/named")
-    hol, hdup = lookup_table(facts, "calendars::named::get_holidays_by_name") or ({}, [])
-    wkm, wdup = lookup_table(facts, "calendars::named::get_weekmask_by_name") or ({}, [])
+    # which constants a name resolves to is found by evaluating the getters on each candidate name (documented names and every short literal of the module),
+    # so the table may be a HashMap written out as pairs, a `match`, a const array of structs searched with find, a shared helper, ...
+    _, hdup = lookup_table(facts, "calendars::named::get_holidays_by_name") or ({}, [])
+    _, wdup = lookup_table(facts, "calendars::named::get_weekmask_by_name") or ({}, [])
+    docs0 = documented_names(repo)
+    hol, wkm, verdicts = resolve_by_evaluation(facts, set(docs0) | candidate_keys(facts))
 
     # ---------------- R07.1 wiring
     r1 = ck.rule("R07.1", "name -> table wiring: documented names = keys of both lookup tables (which constants a name resolves to is "
@@ -261,47 +318,14 @@ def run(ck, facts, tier):
     for fn, kind in (("calendars::named::get_holidays_by_name", "holidays"), ("calendars::named::get_weekmask_by_name", "mask")):
         r = facts.fn(fn)
         where = "%s:%d" % (r["file"], r["line"]) if r else None
-        try:
-            got = cel.Ev(facts, hooks=hk).apply_fn(fn, [NAME], 0)
-            look = Sym("lookup", vkey(NAME))
-            import paths
-            okm, found, nfound = False, [], 0
-            tabs = hol if kind == "holidays" else wkm
-            for c, v in paths.flatten(got):
-                dc = dict(c)
-                pos = [g for g, b in c if b and isinstance(g, tuple) and g[0] == "arm"]
-                if dc.get(("arm", ("Some", "_"), vkey(look))):
-                    found.append((Sym("payload", vkey(look), 0), v))          # table form: whatever the look-up found
-                elif len(pos) == 1 and pos[0][2] == vkey(NAME) and isinstance(pos[0][1], str) and pos[0][1] in tabs:
-                    lits = const_lits(facts, tabs[pos[0][1]])                 # match form: the arm's own constant
-                    if lits is None:
-                        raise Unsupported("constant %s is not a literal table" % tabs[pos[0][1]])
-                    found.append((Tup([Poly.const(int(x)) if kind == "mask" else Sym("lit", x) for x in lits]), v))
-                elif not pos:
-                    okm = isinstance(v, Sym) and v.tag[:2] == ("ctor", "Err")
-                    nfound += 1
-                else:
-                    found.append((None, v))
-            okm = okm and nfound == 1 and bool(found)
-            f = found[0][1] if found else None
-            if kind == "holidays":
-                ok = True
-                for val, f in found:
-                    ok1 = val is not None and isinstance(f, Sym) and f.tag[:2] == ("ctor", "Ok") and isinstance(f.tag[2], Coll) and vkey(f.tag[2].seq.src) == vkey(val)
-                    if ok1:
-                        el = f.tag[2].seq.fn(Poly.atom("i0"))
-                        lit = Sym("at", vkey(val), Poly.atom("i0").key())
-                        want = Sym("m", "unwrap", vkey(Sym("call", "chrono::NaiveDateTime::parse_from_str", (vkey(lit), vkey(Sym("lit", FMT))))), ())
-                        ok1 = vkey(el) == vkey(want)
-                    ok = ok and ok1
-                ck.check(r5, "get_holidays_by_name", ok and okm, "get_holidays_by_name is not: unknown name -> Err; otherwise collect(parse(literal) for every literal of the table)",
-                         where, detail=cel.vfmt(f)[:400] if f is not None else None, sample="value.iter().map(|x| parse_from_str(x, FMT).unwrap()).collect()")
-            else:
-                ok = all(val is not None and isinstance(f, Sym) and f.tag[:2] == ("ctor", "Ok") and vkey(f.tag[2]) == vkey(val) for val, f in found)
-                ck.check(r5, "get_weekmask_by_name", ok and okm, "get_weekmask_by_name is not: unknown name -> Err; otherwise the table's mask unchanged", where,
-                         detail=cel.vfmt(f)[:300] if f is not None else None, sample="value.to_vec()")
-        except Unsupported as e:
-            ck.fail(r5, fn.rsplit("::", 1)[-1], "rule could not be established (%s)" % e, where)
+        short = fn.rsplit("::", 1)[-1]
+        known = sorted(n for (n, k_), v in verdicts.items() if k_ == kind and v[0] != "err")
+        bad = [(n, verdicts[(n, kind)]) for n in known if verdicts[(n, kind)][0] != "ok"]
+        unk = verdicts.get(("\0unknown", kind))
+        okm = unk is not None and unk[0] == "err"
+        what = "unknown name -> Err; otherwise collect(parse(literal) for every literal of the table)" if kind == "holidays" else "unknown name -> Err; otherwise the table's mask unchanged"
+        ck.check(r5, short, okm and not bad and len(known) >= 14, "%s is not: %s" % (short, what), where,
+                 detail=("name %r: %s" % (bad[0][0], bad[0][1][1]) if bad else ("unknown name gives %s" % (unk,))), sample="%d names evaluated: Ok(table data unchanged); unknown name: Err" % len(known))
     r = facts.fn("calendars::calendar::Cal::new")
     try:
         H, W = Sym("param", "holidays"), Sym("param", "week_mask")
